@@ -110,10 +110,11 @@ class Recorder:
         self.evals = []      # dicts: where, idx, list, h, excess, nbh, spec
         self.roots = []      # dicts: lower, upper, f_lower, f_upper, result, iters
         self.sizes = []      # (nbh, H after size)
+        self.nested = None   # the design's coordinates_domain_nested (Bisection2D empties its own attribute)
 
 
-def _locate(search, coords):
-    nested = getattr(search, "coordinates_domain_nested", None)
+def _locate(search, coords, nested_ref=None):
+    nested = nested_ref if nested_ref is not None else getattr(search, "coordinates_domain_nested", None)
     dom = getattr(search, "coordinates_domain", None)
     if nested:
         for l, lst in enumerate(nested):
@@ -145,7 +146,7 @@ def instrument(rec: Recorder):
             @functools.wraps(orig)
             def w(self, coordinates, h, field_specifier="N/A"):
                 v = orig(self, coordinates, h, field_specifier=field_specifier)
-                where, l, i = _locate(self, coordinates)
+                where, l, i = _locate(self, coordinates, rec.nested)
                 last = self.searchTracker[-1]
                 rec.evals.append({"where": where, "list": l, "idx": i, "h": float(h), "excess": float(v), "nbh": len(coordinates),
                                   "spec": str(field_specifier), "max_eft": float(last[2]), "min_eft": float(last[3])})
@@ -192,7 +193,7 @@ def instrument(rec: Recorder):
 
 
 # ----------------------------------------------------------------------------- oracles
-def resimulate(cfg, coords, height, at_returned_height: bool):
+def resimulate(cfg, coords, height, at_returned_height: bool, base_height=None):
     """Fresh objects only.  (a) tool pipeline: GHE built at max_height, 3-height g-function, then H :=
     returned height.  (b) everything (borehole, g-function, hybrid load) built at the returned height."""
     from ghedesigner.enums import TimestepType
@@ -202,7 +203,8 @@ def resimulate(cfg, coords, height, at_returned_height: bool):
     from ghedesigner.utilities import borehole_spacing, eskilson_log_times
 
     phys = dict(cfg["phys"])
-    phys["borehole"] = (height if at_returned_height else cfg["max_h"], phys["borehole"][1], phys["borehole"][2])
+    base = cfg["max_h"] if base_height is None else base_height
+    phys["borehole"] = (height if at_returned_height else base, phys["borehole"][1], phys["borehole"][2])
     # mirror the manager: pipe built through the same setter arithmetic
     m = ghelib.build_manager({**cfg, "phys": phys, "nominal_height": phys["borehole"][0]})
     fluid, pipe, grout, soil, borehole, bhe_type = m._fluid, m._pipe, m._grout, m._soil, m._borehole, m.pipe_type
@@ -237,6 +239,7 @@ def run_design(cfg):
             design = m._design
             dom = getattr(design, "coordinates_domain", None)
             nested = getattr(design, "coordinates_domain_nested", None)
+            rec.nested = nested
             out["counts"] = [len(f) for f in dom] if dom is not None else None
             out["nested_counts"] = [[len(f) for f in lst] for lst in nested] if nested is not None else None
             out["desc_len0"] = len(design.fieldDescriptors[0]) if nested is not None and design.fieldDescriptors else None
@@ -281,7 +284,16 @@ def run_design(cfg):
         out["roots"] = rec.roots
         out["sizes"] = rec.sizes
         if out["outcome"] == "design":
-            out["oracle_a"] = resimulate(cfg, out["coords"], out["H"], at_returned_height=False)
+            # the searches build their final GHE (and its hybrid load) at max_height, except the
+            # "loads too small" continue_if_design_unmet fallback, which builds it at min_height
+            base = cfg["max_h"]
+            fe = final_search_evals(out)
+            # (BisectionZD re-initialises the selected field at max_height at the end of search_successive)
+            if cfg.get("cont") and cfg["geom"][0] in ("NEARSQUARE", "RECTANGLE", "BIRECTANGLE") and len(fe) >= 3 and \
+                    classify_pre(fe[0]["excess"], fe[1]["excess"], fe[2]["excess"]) == "tooSmall":
+                base = cfg["min_h"]
+            out["oracle_base_height"] = base
+            out["oracle_a"] = resimulate(cfg, out["coords"], out["H"], at_returned_height=False, base_height=base)
             out["oracle_b"] = resimulate(cfg, out["coords"], out["H"], at_returned_height=True)
     except Exception as e:  # noqa: BLE001  infrastructure problem inside the worker
         out["outcome"] = "harness-error"
@@ -297,7 +309,7 @@ def get_runs(ctx, n_quick=24, n_thorough=240):
     import random
 
     rng = random.Random(ctx.seed * 7919 + 17)
-    cfgs = make_cfgs(rng, n, months_choices=(12, 13, 24) if ctx.tier == "quick" else (12, 13, 24, 59, 120, 240))
+    cfgs = make_cfgs(rng, n, months_choices=(12, 12, 24, 13) if ctx.tier == "quick" else (12, 13, 24, 59, 120, 240))
     CACHE.mkdir(exist_ok=True)
     key = f"designs-{ctx.tier}-{ctx.seed}-{repo_hash()}.json"
     path = CACHE / key
@@ -352,6 +364,7 @@ def replay_line(rec):
         real = ("selected " + str(rec["sel_key"])) if rec["outcome"] == "design" else rec["outcome"]
         return {"line": line, "real": real, "trace": " ".join(tr), "kind": "b1d"}
     if kind in ("BIRECTANGLE", "BIRECTANGLECONSTRAINED", "BIZONEDRECTANGLE"):
+        zd = kind != "BIRECTANGLE"      # design.py: only the plain bi-rectangle uses Bisection2D
         nc = rec["nested_counts"]
         if not nc or any(len(x) == 0 for x in nc):
             return None
@@ -361,6 +374,8 @@ def replay_line(rec):
         last_list = None
         for e in ev:
             if e["where"] == "outer":
+                if e["idx"] is None or e["idx"] > len(nc):
+                    return None
                 l, i = (0, 0) if e["idx"] == 0 else (e["idx"] - 1, len(nc[e["idx"] - 1]) - 1)
             elif e["where"] == "inner":
                 l, i = e["list"], e["idx"]
@@ -371,7 +386,7 @@ def replay_line(rec):
             tr.append(f"{l}.{i}:{'H' if e['h'] == hi else 'L'}")
         import searchlib
 
-        if kind == "BIZONEDRECTANGLE":
+        if zd:
             sz = [[0.0] * len(x) for x in nc]
             for l, tot in rec.get("zd_heights", {}).items():
                 k = rec.get("zd_selected_keys", {}).get(l)
@@ -462,3 +477,61 @@ def compare_replay(rp, model_out):
             # float accumulation in `current_spacing += spacing_change` dropped the 11th target: near-boundary
             ok = (mo.split()[0] == rp["real"].split()[0]) and mt.split()[:-1] == rp["trace"].split()
     return ok, {"model": model_out, "real": rp["real"], "real_trace": rp["trace"]}
+
+
+# ----------------------------------------------------------------------------- classification helpers
+def classify_pre(t0l, t0u, tm1):
+    """The five-way branch of Bisection1D.search, written from the property text (not from the code)."""
+    if t0l == 0 or t0u == 0:
+        return "zero"
+    if (t0l < 0 < t0u) or (t0u < 0 < t0l):
+        return "bracket0"
+    if tm1 == 0:
+        return "zero"
+    if (t0u < 0 < tm1) or (tm1 < 0 < t0u):
+        return "bisect"
+    if t0l < 0:
+        return "tooSmall"
+    if tm1 > 0:
+        return "tooBig"
+    return "bisect"
+
+
+def final_search_evals(rec):
+    """The evaluations of the last 1D search of the run (the one whose selection is returned)."""
+    ev = rec.get("evals", [])
+    kind = rec["cfg"]["geom"][0]
+    if kind in ("NEARSQUARE", "RECTANGLE"):
+        return ev
+    if kind == "ROWWISE":
+        return ev
+    inner = [e for e in ev if e["where"] == "inner"]
+    if not inner:
+        return []
+    if kind == "BIRECTANGLE":
+        l = inner[-1]["list"]
+        return [e for e in inner if e["list"] == l]
+    # ZD: the chosen list = least total drilling
+    tots = rec.get("zd_heights") or {}
+    if not tots:
+        return []
+    l = int(min(tots, key=lambda k: (tots[k], list(tots).index(k))))
+    return [e for e in inner if e["list"] == l]
+
+
+def is_escape(rec):
+    """True when the returned design is a continue_if_design_unmet fallback (decided from the recorded
+    excess values with classify_pre, independently of the implementation's control flow)."""
+    cfg = rec["cfg"]
+    if not cfg.get("cont"):
+        return False
+    ev = final_search_evals(rec)
+    if cfg["geom"][0] == "ROWWISE":
+        return len(ev) >= 2 and ev[0]["excess"] > 0 and ev[1]["excess"] > 0
+    if len(ev) < 3:
+        return False
+    return classify_pre(ev[0]["excess"], ev[1]["excess"], ev[2]["excess"]) in ("tooSmall", "tooBig")
+
+
+def excess_of(cfg, mx, mn):
+    return max(mx - cfg["max_eft"], cfg["min_eft"] - mn)
